@@ -234,6 +234,11 @@ def call_builtin(ev, name, args, kwargs, node):
     if name == "getattr":
         o, n = args[0], args[1]
         if isinstance(n, Const) and isinstance(n.value, str):
+            if len(args) > 2:
+                try:
+                    return ev.getattr(o, n.value, node)
+                except AnalysisError:
+                    return args[2]
             return ev.getattr(o, n.value, node)
         ev.event("reflect", obj=o, name=n, node=node)
         return App("getattr", (as_v(ev, o), n), ()) if isinstance(n, V) else Top("getattr")
@@ -561,6 +566,8 @@ def np_call(ev, name, args, kwargs, node):
         return r
     if name == "isclose" and len(A) == 2 and not kwargs and same(as_v(ev, A[0]), as_v(ev, A[1])):
         return TRUE
+    if name in ("shape", "ndim", "size") and len(A) == 1:
+        return shape_fact(name, strip_fresh(as_v(ev, A[0])))
     if name == "finfo":
         return App("finfo", ())
     if name == "flip" and A:
